@@ -36,7 +36,7 @@ C("C02", "TestC02", P(1200), P(8000, 16, 1500),
   level_note="Trusts the generator's domain and the harness's own key order (byte-wise name order; log key = name NUL complemented big-endian index).",
   assumptions=[DOMAIN])
 
-C("C03", "TestC03", P(500), P(5000, 16, 1500),
+C("C03", "TestC03", P(1000), P(6000, 16, 1500),
   rule="rapid-generated stacks of 1..6 tables with increasing disjoint limits over a shared pool of 2..12 names and a shared range of log indices (updates, re-creations, deletions, same key in 3+ tables); "
        "raw NewMerged and NewStack on a hand-assembled directory; full scans and all seek key classes of C02 compared with a newest-wins overlay model; "
        "non-trivial = >=2 tables share a key and a deletion shadows an older record; distinct = hash of the case JSON",
@@ -44,3 +44,13 @@ C("C03", "TestC03", P(500), P(5000, 16, 1500),
   level_text="Generated-input search over stacks of tables; both views are compared record for record with a map-based overlay model, for scans and seeks. " + BOUNDED,
   level_note="Trusts the single-table writer/reader only as far as C01/C02 establish them; the overlay model is 20 lines of map logic.",
   assumptions=[DOMAIN, "tables of one stack have strictly increasing, non-overlapping update-index limits and one hash id (precondition of NewMerged)"])
+
+C("C11", "TestC11", P(4000), P(20000, 16, 1500),
+  rule="rapid-generated single tables (hash pools of 1..200 ids, peeled values, object index on/off, single/multi-block/indexed object section, truncated position lists, min update index > 0) "
+       "and stacks of 1..5 tables (raw NewMerged and NewStack view) where refs are deleted or re-pointed in newer tables; queries = every id in the case, near-miss ids sharing a prefix, zero/ff ids, drawn ids; "
+       "oracle = filter of the generated refs (stack: overlay) by value/peeled == id, compared in order with all fields, and with ReadRef of each name; "
+       "non-trivial = (table with an object section, or stack with a shadowed hit) and >=1 query with hits; distinct = hash of the case JSON",
+  technique="property-based testing (rapid): RefsFor vs. filtering the generated refs / overlay model",
+  level_text="Generated-input search over tables, stacks and object ids; results compared exactly with a filter over the reference model. " + BOUNDED,
+  level_note="Trusts the generator's domain; the oracle is a three-line filter over the overlay model.",
+  assumptions=[DOMAIN, "queried object ids have the table's hash size"])
